@@ -115,6 +115,8 @@ def _run(op, arrays, params=None):
     status, result = A.run_command(op, arrays, params or {})
     if status == "err":
         raise _LawError(op, result)
+    if not isinstance(result, numpy.ndarray):
+        raise _LawError(op, TypeError("result is %r, not an array" % type(result)))
     return result
 
 
